@@ -59,15 +59,29 @@ def run_buffer(data, sr, w, ch, ops):
     return outs
 
 
-def run_filelike(kind, path, data, sr, w, ch, ops):
+def run_filelike(kind, path, data, sr, w, ch, ops, burst=0):
     import auditok.io as aio
     if kind == "raw":
         src = aio.RawAudioSource(path, sr, w, ch)
     elif kind == "wav":
         src = aio.WaveAudioSource(path)
     else:
+        class Bursty(io.RawIOBase):
+            """a pipe-like raw stream: each low-level read hands over at most `burst` bytes"""
+            def __init__(self, payload, burst):
+                self.p, self.i, self.burst = payload, 0, burst
+
+            def readable(self):
+                return True
+
+            def readinto(self, b):
+                k = min(len(b), self.burst, len(self.p) - self.i)
+                b[:k] = self.p[self.i:self.i + k]
+                self.i += k
+                return k
+
         class FakeStdin:
-            buffer = io.BytesIO(data)
+            buffer = io.BytesIO(data) if not burst else io.BufferedReader(Bursty(data, burst), buffer_size=max(16, burst))
         old = aio.sys.stdin
         aio.sys.stdin = FakeStdin
         try:
@@ -93,7 +107,7 @@ def run_filelike(kind, path, data, sr, w, ch, ops):
     return outs
 
 
-def chk_reads(data, bps, ops, outs, restart=True, filelike=False):
+def chk_reads(data, bps, ops, outs, restart=True, filelike=False, sr=None):
     """the statement itself on the implementation's outputs (read contract)"""
     pos, is_open = 0, False
     n = len(data)
@@ -128,10 +142,24 @@ def chk_reads(data, bps, ops, outs, restart=True, filelike=False):
             if r != [3, pos // bps]:
                 return "position reads back %r after consuming %d samples" % (r, pos // bps)
         elif k in (7, 8, 9):
-            if r == [0]:
-                return None      # repositioned: the remaining outputs are judged by the correspondence with the model
-            if r[0] != 5:
-                return "position setter returned %r" % (r,)
+            ns = n // bps
+            if k == 7:
+                p = o[1]
+            elif k == 8:
+                # seconds: the sample index is the whole-sample truncation of rate * t (the statement fixes only the unit)
+                p = int(sr * C.me_float(o[1])) if sr else None
+            else:
+                p = int(sr * o[1] / 1000) if sr else None
+            if p is None:
+                return None
+            norm = p + ns if p < 0 else p
+            if 0 <= norm <= ns:
+                if r != [0]:
+                    return "setting the position to sample %d (of %d; negative counts from the end) returned %r instead of succeeding" % (p, ns, r)
+                pos = norm * bps
+            else:
+                if r != [5, 3]:
+                    return "setting the position to out-of-range sample %d (of %d) returned %r instead of raising IndexError" % (p, ns, r)
     return None
 
 
@@ -182,7 +210,7 @@ def run(prop, tier):
         cases.append((20, [[list(data), sr, w * ch], ops])); impl.append(outs)
         meta.append({"source": "buffer", "samples": n, "format(sr,sw,ch)": [sr, w, ch], "ops": ops})
         if viol is None:
-            wv = chk_reads(data, w * ch, ops, outs)
+            wv = chk_reads(data, w * ch, ops, outs, sr=sr)
             if wv:
                 viol = {"what": wv, **meta[-1], "impl_outputs": outs}
     # ---- buffer source, exhaustive short sequences over a small alphabet
@@ -197,7 +225,7 @@ def run(prop, tier):
                     cases.append((20, [[list(data), 10, w * ch], ops])); impl.append(outs)
                     meta.append({"source": "buffer", "samples": n, "format(sr,sw,ch)": [10, w, ch], "ops": ops})
                     if viol is None:
-                        wv = chk_reads(data, w * ch, ops, outs)
+                        wv = chk_reads(data, w * ch, ops, outs, sr=10)
                         if wv:
                             viol = {"what": wv, **meta[-1], "impl_outputs": outs}
     # ---- file-like sources
@@ -218,16 +246,18 @@ def run(prop, tier):
                 else:
                     ops.append([0])
             for kind in ("raw", "wav", "stdin"):
-                ops_k = [o for o in ops if not (kind == "stdin" and o[0] == 3 and not o[1])]   # stdin: read(None) is not part of the statement
+                ops_k = [o for o in ops if not (kind == "stdin" and o[0] == 3 and (not o[1] or o[1][0] < 0))]   # stdin: read(None) / read(<0) are not part of the statement
                 path = os.path.join(tmpd, "a.%s" % kind)
                 if kind == "raw":
                     open(path, "wb").write(data)
                 elif kind == "wav":
                     with wave.open(path, "wb") as f:
                         f.setframerate(sr); f.setsampwidth(w); f.setnchannels(ch); f.writeframes(data)
-                outs = run_filelike(kind, path, data, sr, w, ch, ops_k)
+                # standard input fed in bursts that are not aligned with samples or requests (a pipe), every other case
+                burst = (0 if it % 2 == 0 else r.choice([1, 3, 5, 6, 7])) if kind == "stdin" else 0
+                outs = run_filelike(kind, path, data, sr, w, ch, ops_k, burst)
                 cases.append((21, [0 if kind == "stdin" else 1, [list(data), sr, w * ch], ops_k])); impl.append(outs)
-                meta.append({"source": kind, "samples": n, "format(sr,sw,ch)": [sr, w, ch], "ops": ops_k})
+                meta.append({"source": kind, "samples": n, "format(sr,sw,ch)": [sr, w, ch], "ops": ops_k, "stdin_burst_bytes": burst})
                 if viol is None:
                     wv = chk_reads(data, w * ch, ops_k, outs, restart=(kind != "stdin"), filelike=True)
                     if wv:
